@@ -24,7 +24,7 @@ func RunPath(p *Program, s *smt.Solver, entry *ssa.Function, prefix []Decision, 
 		// the virtual clock starts at a realistic wall-clock reading (ns since 1970), far from the zero time.Time
 		now: 1_700_000_000_000_000_000,
 	}
-	m.Res = &RunResult{Reached: map[string]int{}, Asserts: map[string]int{}, Unknown: map[string]int{}, Funcs: map[string]int{}, Forks: map[string]int{}}
+	m.Res = &RunResult{Reached: map[string]int{}, Asserts: map[string]int{}, Unknown: map[string]int{}, Funcs: map[string]int{}, Forks: map[string]int{}, Cross: map[string]int{}}
 	s.Reset()
 	g0 := &goroutine{id: 0, resume: make(chan bool)}
 	m.gs = []*goroutine{g0}
@@ -86,6 +86,7 @@ type HarnessSummary struct {
 	Truncated   bool
 	MaxDecision int
 	Samples     []PathSample
+	Cross       map[string]int
 }
 
 type PathSample struct {
@@ -202,6 +203,12 @@ func (s *HarnessSummary) absorb(r *RunResult) {
 	}
 	for k, v := range r.Forks {
 		s.Forks[k] += v
+	}
+	for k, v := range r.Cross {
+		if s.Cross == nil {
+			s.Cross = map[string]int{}
+		}
+		s.Cross[k] += v
 	}
 	for k := range r.Funcs {
 		s.Funcs[k] = true
